@@ -8,7 +8,7 @@
     new nndvi <k> <sampling_times> <z bits>
       ref <dim> <n> <n*dim float bits>                     -> ok
       batch <dim> <n> <bits> adj <m> <rows> perms <p> <p comma-separated index lists>
-        -> ok <N|D> <total> <since> d <bits> th <bits|nan> knn <0|1> ref <rows> <bits…>
+        -> ok <N|D> <total> <since> d <bits> th <bits> knn <0|1> ref <rows> <bits…>
          | reject <N|D> <total> <since> ref <rows> <bits…>
 -/
 import MenelausVerif.Driver.Core
@@ -110,10 +110,7 @@ private def nndviStep (c : NNDVI.Cfg Float) (s : NNDVI.State Float) : List Strin
             | .rejected => some ("reject " ++ showState s' ++ " " ++ showRef s', s')
             | .ok d θ knn =>
               if !NNDVI.drawsOk c s X perms then none else
-              let th := match θ with
-                | some t => showFloat t
-                | none => "nan"
-              some ("ok " ++ showState s' ++ " d " ++ showFloat d ++ " th " ++ th ++ " knn " ++ showBool knn ++
+              some ("ok " ++ showState s' ++ " d " ++ showFloat d ++ " th " ++ showFloat θ ++ " knn " ++ showBool knn ++
                 " " ++ showRef s', s')
           | _, _ => none
         | _ => none
